@@ -74,7 +74,11 @@ def from_real(asm):
         elif isinstance(x, str):
             out.append(str(x))
         else:
-            out.append(("X", re.sub(r"[^A-Za-z0-9_]", "_", repr(x))))
+            r = re.sub(r"[^A-Za-z0-9_]", "_", repr(x))
+            if len(r) > 40:       # e.g. the runtime bytecode as a data item: keep a digest
+                import hashlib
+                r = r[:16] + "_" + hashlib.sha1(r.encode()).hexdigest()[:12]
+            out.append(("X", r))
     return out
 
 
